@@ -28,7 +28,7 @@ def dispatch (prop op : String) (args : List String) (impl : String) : Verdict :
   | "C20" => c20 op args impl
   | "C07" => c07 op args impl
   | "C06" => c06 op args impl
-  | "C15" => c15 op args impl
+  | "C15" => c15x op args impl
   | "C16" => c16 op args impl
   | "C17" => c17 op args impl
   | "C18" => c18 op args impl
